@@ -33,15 +33,18 @@ MANIFEST = dict(
     technique="TLA+ model of every name-to-path call site (TLC exhaustive over name class sequences x entry point x store history) + replay of every exported case as raw HTTP / handler call against the real ingest/query servers inside a hashed sentinel tree",
     text=("spec/Paths.tla: names are sequences of segment classes {plain, dot, dot-dot, separator, absolute prefix, encoded separator, "
           "NUL, 4 KiB, and look-alikes of dot / dot-dot / separator: Unicode compatibility forms U+FF0E U+2024 U+FE52 U+2025 U+FF0F "
-          "U+2215 U+2044 and overlong UTF-8}; 27 API operations (lookup upload/get/delete, inputlookup, index creation via bulk / "
-          "PUT / single doc, mapping and alias files, alias add/remove via body, index delete, dashboard get/favorite/update/delete, "
+          "U+2215 U+2044 and overlong UTF-8}; 29 API operations (lookup upload/get/delete, inputlookup, index creation via bulk / "
+          "OTLP logs resource attribute / Splunk HEC event field / PUT / single doc, mapping and alias files, alias add/remove via body, index delete, dashboard get/favorite/update/delete, "
           "folder create/get/delete, saved queries, alerts, contact points, scroll id, metric name, metric tag key) each with its "
           "transport (one raw path segment of the router vs body/form/query text), validation, guard and path construction "
           "transcribed from the call site; route-parameter APIs are explored at two entry points (HTTP, and the exported handler "
           "with the parameter delivered verbatim), id-keyed stores in three histories (fresh, object created, created+deleted) with "
-          "the hostile name as an UNKNOWN id. TLC checks Confined with a single-path-component guard at every call site (all 11 "
+          "the hostile name as an UNKNOWN id; APIs whose request can carry several names (bulk action lines, OTLP resources, HEC events, "
+          "alias actions, metric datapoints) at the FIRST and at a REPEATED occurrence of the name within one request (per-request "
+          "caches). TLC checks Confined with a single-path-component guard at every call site (all 11 "
           "classes <= 3 per name quick; core classes <= 4 thorough), lists the escaping triples for the guards as coded, and shows "
-          "that a call site normalising look-alikes after its guard violates Confined. Every exported case is concretised and sent "
+          "that a call site normalising look-alikes after its guard, or caching a name per request before validating it, violates "
+          "Confined. Every exported case is concretised and sent "
           "to the real servers (cmd/startup's ConstructIngestServer/ConstructQueryServer.Run on loopback) or to the exported handler; "
           "oracle: nothing outside the data directory is created, modified or deleted (sentinel tree with known content at three "
           "directory levels above the data dir, hashed before/after each request) and no response contains sentinel content."),
